@@ -16,9 +16,13 @@ Python semantics mirrored
   membership**: no modelled function observes anything but `k in s` / `s & t` non-empty.
 * `ReactionSystem.substances` is an `OrderedDict` key → `Substance`: an association list in insertion order.
 * Exceptions are explicit error values; nothing is totalised.
-* Not modelled: `Equilibrium.as_reactions` inside `categorize_substances` (plain `Reaction`s only, for which
-  the `AttributeError` branch appends the reaction itself), `check_balance` (C05), `missing_substances_from_keys`
-  (iterates a Python `set` of `str`, i.e. in hash-randomised order), units, numpy dtype handling.
+* A member of a system may be an `Equilibrium` (`isEq`; its `param` is a scalar/None, or the pair `(kf, kb)` = `(param, paramB)`).
+  All accessors are inherited, `__eq__` does not look at the class. `categorize_substances` expands equilibria with
+  `as_reactions()` (no arguments: needs the pair; the two `Reaction(...)` calls run the default Reaction checks, of which
+  `any_effect` can fail for `Nat` coefficients).
+* Not modelled: `check_balance` (C05), `missing_substances_from_keys` (iterates a Python `set` of `str`, i.e. in
+  hash-randomised order), units, numpy float dtypes (`upper_conc_bounds` is modelled for exact arithmetic = `dtype=object`;
+  with the default `float64` a ZERO atom count gives inf/nan + RuntimeWarning instead of ZeroDivisionError: outside the model).
 -/
 
 namespace ChemModel.RSysGraph
@@ -34,7 +38,8 @@ def Stoich.get (s : Stoich) (k : String) : Nat :=
   | none => 0
 
 /-- `chempy.chemistry.Reaction` restricted to what the structural queries read.
-    `param`: `None` or an integer (only compared for equality); `name`: `None` or a string. -/
+    `param`: `None` or an integer (only compared for equality); `name`: `None` or a string.
+    `paramB = some kb` (with `param = some kf`): the parameter is the tuple `(kf, kb)`; `isEq`: instance of `Equilibrium`. -/
 structure Rxn where
   reac : Stoich
   prod : Stoich
@@ -42,6 +47,8 @@ structure Rxn where
   inactProd : Stoich := []
   param : Option Int := none
   name : Option String := none
+  paramB : Option Int := none
+  isEq : Bool := false
 deriving DecidableEq, Repr, Inhabited
 
 /-- `Reaction.keys()` (chemistry.py:647-655): a set; here the chained key lists, read up to membership -/
@@ -61,12 +68,47 @@ def Rxn.net (r : Rxn) (k : String) : Int :=
 /-- `Reaction.__eq__` (chemistry.py:622-630): `_cmp_attr = (reac, prod, param, inact_reac, inact_prod)`;
     `name` is NOT compared; `OrderedDict != OrderedDict` is order sensitive = list inequality -/
 def Rxn.pyEq (a b : Rxn) : Bool :=
-  a.reac == b.reac && a.prod == b.prod && a.param == b.param &&
+  a.reac == b.reac && a.prod == b.prod && (a.param == b.param && a.paramB == b.paramB) &&
   a.inactReac == b.inactReac && a.inactProd == b.inactProd
 
 /-- the comparison used by `concatenate._pred` (`cmp_attrs = reac inact_reac prod inact_prod`, no `param`) -/
 def Rxn.sameStoich (a b : Rxn) : Bool :=
   a.reac == b.reac && a.inactReac == b.inactReac && a.prod == b.prod && a.inactProd == b.inactProd
+
+/-- `Reaction.check_any_effect` (chemistry.py:554-563): `any(self.net_stoich(self.keys()))` -/
+def Rxn.anyEffect (r : Rxn) : Bool := r.keys.any fun k => r.net k != 0
+
+inductive ExpandErr where
+  | rateNeeded   -- `kf, kb = self.param` fails (param is no pair): ValueError "Exactly one rate needs to be provided"
+  | noEffect     -- `Reaction(...)` default check `any_effect`: ValueError "The net stoichiometry change of all species are zero."
+deriving DecidableEq, Repr
+
+/-- `Equilibrium.as_reactions()` without arguments (chemistry.py:1048-1116): forward `Reaction(reac, prod, kf, inact_reac,
+    inact_prod, name=self.name)`, backward `Reaction(prod, reac, kb, inact_prod, inact_reac, name=None)`; both are plain
+    `Reaction`s built with the DEFAULT checks (`all_positive`, `all_integral` hold for `Nat`; `consistent_units`: no units). -/
+def Rxn.asReactions (r : Rxn) : Except ExpandErr (Rxn × Rxn) :=
+  match r.param, r.paramB with
+  | some kf, some kb =>
+    if r.anyEffect then
+      .ok ({ reac := r.reac, prod := r.prod, inactReac := r.inactReac, inactProd := r.inactProd, param := some kf, name := r.name },
+           { reac := r.prod, prod := r.reac, inactReac := r.inactProd, inactProd := r.inactReac, param := some kb, name := none })
+    else .error .noEffect
+  | _, _ => .error .rateNeeded
+
+/-- lines 190-195 of `categorize_substances`: equilibria are replaced by their forward and backward reaction, plain reactions
+    (no `as_reactions`: AttributeError) are kept -/
+def expand : List Rxn → Except ExpandErr (List Rxn)
+  | [] => .ok []
+  | r :: t =>
+    if r.isEq then
+      match r.asReactions with
+      | .error e => .error e
+      | .ok (f, b) => match expand t with
+        | .error e => .error e
+        | .ok l => .ok (f :: b :: l)
+    else match expand t with
+      | .error e => .error e
+      | .ok l => .ok (r :: l)
 
 /-! ### Substances and systems -/
 
@@ -325,14 +367,22 @@ def categoryOf (rxns : List Rxn) (k : String) : Cat :=
   else if rxns.any fun r => decide (r.allProd k > 0) then .unaffected
   else .nonparticipating
 
-/-- `categorize_substances(checks=checks)`: the irreversible system is constructed first (its checks may
+inductive CatErr where
+  | expand (e : ExpandErr)   -- `r.as_reactions()` raised ValueError (only AttributeError is caught)
+  | check (c : Check)        -- the constructor of the irreversible system raised
+deriving DecidableEq, Repr
+
+/-- `categorize_substances(checks=checks)`: equilibria are expanded, then the irreversible system is constructed (its checks may
     raise); the sets are returned as lists in substance order. Coefficients are `Nat`, so the
     "Expected positive stoichiometric coefficients" branch cannot be taken.
     `_stoichs` reshapes to `(len(rxns), len(keys))`, so a system without reactions has `0 × ns` matrices and
     every `np.any(net[:, i] …)` over the empty column is False (all substances nonparticipating). -/
-def categorize (s : RSys) (checks : List Check) : Except Check Categories :=
-  match RSys.make s.rxns (.odict s.substs) checks with
-  | .error c => .error c
+def categorize (s : RSys) (checks : List Check) : Except CatErr Categories :=
+  match expand s.rxns with
+  | .error e => .error (.expand e)
+  | .ok irrev =>
+  match RSys.make irrev (.odict s.substs) checks with
+  | .error c => .error (.check c)
   | .ok irr =>
     let ks := irr.keys
     .ok { accumulated := ks.filter fun k => categoryOf irr.rxns k = .accumulated
